@@ -41,6 +41,10 @@ type Input struct {
 	// MaxConns > 0 bounds the connection pool (corpus only: the model assumes that a driver
 	// call never waits for a connection held by a goroutine that is blocked on the cache)
 	MaxConns int `json:"max_conns,omitempty"`
+	// Handles[i] = how goroutine i reaches the cache: "" / "root" = the handle opened with
+	// PrepareStmt:true; "session" = its own db.Session(&gorm.Session{PrepareStmt:true}) value
+	// (a distinct PreparedStmtDB struct that must share map AND lock with the root cache)
+	Handles []string `json:"handles,omitempty"`
 	// Plumb != nil: a session-plumbing case (plumb.go) instead of a schedule case
 	Plumb *PlumbIn `json:"plumb,omitempty"`
 }
@@ -241,9 +245,18 @@ func (e *env) runSched(in Input) Obs {
 	for i := range in.Progs {
 		ctl.actors = append(ctl.actors, &actor{id: i, wake: make(chan int, 1), last: i == len(in.Progs)-1})
 	}
+	// the goroutines' handles are derived before anything runs (Session itself is not under test here)
+	handles := make([]*gorm.DB, len(in.Progs))
+	for i := range in.Progs {
+		handles[i] = db
+		if i < len(in.Handles) && in.Handles[i] == "session" {
+			handles[i] = db.Session(&gorm.Session{PrepareStmt: true})
+		}
+	}
 	for i, prog := range in.Progs {
 		go func(a *actor, prog []Op, i int) {
 			ctx := context.WithValue(context.Background(), actorKey{}, a)
+			db := handles[i]
 			var tx *gorm.DB
 			for j, op := range prog {
 				ctl.mu.Lock()
@@ -448,6 +461,20 @@ func sig(in Input, tr []Ev) string {
 			return "tx-holds-last-connection"
 		}
 	}
+	// a session handle next to a Reset/Close issued by another goroutine (corpus only: the
+	// generators never combine the two)
+	for i, h := range in.Handles {
+		if h != "session" {
+			continue
+		}
+		for j, p := range in.Progs[:len(in.Progs)-1] {
+			for _, o := range p {
+				if j != i && (o.K == "reset" || o.K == "close") {
+					return "session-handle-keeps-old-map"
+				}
+			}
+		}
+	}
 	for _, w := range ws {
 		if !isUse(w.op) {
 			continue
@@ -510,7 +537,10 @@ func shape(in Input, tr []Ev) string {
 	if in.Plumb != nil {
 		return "plumb:" + in.Plumb.Base + ":" + strings.Join(in.Plumb.Steps, ",") + ":" + in.Plumb.Body + ":" + in.Plumb.Finish
 	}
-	for _, p := range in.Progs {
+	for i, p := range in.Progs {
+		if i < len(in.Handles) && in.Handles[i] == "session" {
+			b.WriteString("S:")
+		}
 		for _, o := range p {
 			fmt.Fprintf(&b, "%s%d%v,", o.K[:2], o.Q, o.Tx)
 		}
@@ -584,6 +614,29 @@ func genProg(r *lib.Rng, nops int, edge bool) []Op {
 	return p
 }
 
+// genHandles: with probability num/den, and only when no goroutine but the last resets or closes
+// the cache (a session handle keeps the map it was created with: known finding
+// session-handle-keeps-old-map, replayed from the corpus), every goroutine gets at random the root
+// handle or a Session{PrepareStmt:true} value of its own.
+func genHandles(r *lib.Rng, progs [][]Op, num, den int) []string {
+	if !r.Chance(num, den) {
+		return nil
+	}
+	for _, p := range progs[:len(progs)-1] {
+		for _, o := range p {
+			if o.K == "reset" || o.K == "close" {
+				return nil
+			}
+		}
+	}
+	hs := make([]string, len(progs))
+	for i := range progs[:len(progs)-1] {
+		hs[i] = lib.Pick(r, []string{"root", "session", "session"})
+	}
+	hs[len(progs)-1] = "root"
+	return hs
+}
+
 func genInput(r *lib.Rng, maxG int, edge bool) Input {
 	g := r.Range(2, maxG)
 	var in Input
@@ -597,6 +650,7 @@ func genInput(r *lib.Rng, maxG int, edge bool) Input {
 		total += n
 	}
 	in.Progs = append(in.Progs, []Op{{K: "close"}})
+	in.Handles = genHandles(r, in.Progs, 1, 3)
 	burst := r.Chance(1, 5)
 	for k := 0; k < 4*total+6; k++ {
 		out := 0
@@ -750,6 +804,13 @@ func main() {
 			return o
 		}
 		out.Count("goroutines", fmt.Sprint(len(in.Progs)-1))
+		nsess := 0
+		for _, h := range in.Handles {
+			if h == "session" {
+				nsess++
+			}
+		}
+		out.Count("session_handles", fmt.Sprint(nsess))
 		nops := 0
 		for _, p := range in.Progs {
 			for _, op := range p {
@@ -864,6 +925,7 @@ func main() {
 			in.Progs = append(in.Progs, []Op{{K: k, Q: 0, Tx: i%5 == 4 && j == 0}})
 		}
 		in.Progs = append(in.Progs, []Op{{K: "close"}})
+		in.Handles = genHandles(r, in.Progs, 1, 2)
 		in.Script = []Step{{Pick: -1}}
 		for k := 0; k < 20; k++ {
 			st := Step{Pick: r.Intn(4)}
